@@ -76,6 +76,24 @@ func c06Gen(r *Rand, tier string, i int) Scenario {
 		}
 		sc.Files = append(sc.Files, s)
 	}
+	many := false
+	if r.Bool(0.06) {
+		// more files than the aggregator's 100-slot channel queue: mostly tiny
+		// files plus one big one, behind a small limiter
+		many = true
+		sc.Files = nil
+		nm := PickOf(r, 105, 130, 200, 300)
+		big := r.Intn(nm)
+		for f := 0; f < nm; f++ {
+			if f == big {
+				sc.Files = append(sc.Files, PickOf(r, 400, 1500, 4000))
+			} else {
+				sc.Files = append(sc.Files, PickOf(r, 0, 1, 1, 1, 2))
+			}
+		}
+		sc.Hosts = 1
+		sc.Cfg.MaxCats = PickOf(r, 1, 2, 2, 3)
+	}
 	// how the files are named on the command line
 	switch r.Intn(3) {
 	case 0: // one glob: a single cat command
@@ -85,6 +103,9 @@ func c06Gen(r *Rand, tier string, i int) Scenario {
 			sc.Commands = append(sc.Commands, fmt.Sprintf("m/f%d.log", f))
 		}
 	default:
+		sc.Commands = []string{"m/*.log"}
+	}
+	if many {
 		sc.Commands = []string{"m/*.log"}
 	}
 	switch r.Intn(4) {
